@@ -9,6 +9,7 @@ package c15
 
 import (
 	"fmt"
+	"strings"
 	"testing"
 
 	"github.com/CrowdStrike/csproto"
@@ -337,15 +338,39 @@ func runC15(t *rapid.T, w *rep.Worker, maxClients int) {
 	}
 	if sched.Switches > 0 && st.Hits > 0 && judged > 0 {
 		// render a compact sample
-		for _, c := range clients {
-			w.Note("client %d: %d inputs, script %d ops, %d observations", c.id, len(c.inputs), len(c.script), len(c.obs))
+		if w.WantDetail() {
+			for _, c := range clients {
+				w.Note("client %d: %d inputs, script %s", c.id, len(c.inputs), renderScript(c.script))
+			}
 		}
 		w.Note("schedule: %d decisions, %d switches, hash %x", sched.Decisions, sched.Switches, sched.Hash())
+		if w.WantDetail() {
+			w.Note("schedule trace: %s", sched.TraceString())
+		}
 		w.EndNontrivial()
 	}
 	if sig := w.Pending(); sig != "" {
 		t.Fatalf("%s", sig)
 	}
+}
+
+func renderScript(ops []op) string {
+	var sb strings.Builder
+	for _, o := range ops {
+		switch o.kind {
+		case opDecode:
+			fmt.Fprintf(&sb, "Decode(in%d) ", o.input)
+		case opAccess:
+			fmt.Fprintf(&sb, "%s(h%d,tag %d) ", lazysim.Accessors[o.acc].Name, o.sel, o.tag)
+		case opNested:
+			fmt.Fprintf(&sb, "Nested(h%d,tag %d,multi=%v) ", o.sel, o.tag, o.multi)
+		case opRange:
+			fmt.Fprintf(&sb, "Range(h%d) ", o.sel)
+		case opClose:
+			fmt.Fprintf(&sb, "Close(h%d) ", o.sel)
+		}
+	}
+	return sb.String()
 }
 
 func firstLines(s string, n int) string {
